@@ -492,7 +492,11 @@ Definition visible (F : option (list evbase)) (recursive : bool) : Prop :=
 
 Lemma visible_recursive F : visible F true.
 Proof.
-  split; [|intros _]; rewrite flag_in_kmask by reflexivity; apply table_lemma; simpl; tauto.
+  assert (H : forall b, In b [IN_CREATE; IN_MOVED_FROM; IN_MOVED_TO] -> In b (needed_for F true)).
+  { intros b Hb. unfold needed_for. right. apply in_or_app. left. exact Hb. }
+  split; [|intros _]; rewrite flag_in_kmask by reflexivity; apply table_lemma; apply H.
+  - right. left. reflexivity.
+  - left. reflexivity.
 Qed.
 
 Section Step.
